@@ -112,7 +112,8 @@ Proof.
   clear H. unfold spec_extend in He.
   apply in_flat_map in He. destruct He as [g [Hg He]]. apply in_flat_map in He. destruct He as [t [Ht He]].
   destruct (spec_row c glo t) as [r|] eqn:Er; [|destruct He].
-  destruct (compat_equiv mu r) eqn:Ec; [|destruct He]. destruct He as [<-|[]].
+  destruct (row_bounds_ok c mu t && compat_equiv mu r) eqn:Ec0; [|destruct He]. destruct He as [<-|[]].
+  apply andb_prop in Ec0. destruct Ec0 as [_ Ec].
   intros c0 [<-|Hin].
   - exists g, t. split; [exact Hg|]. split; [exact Ht|]. apply spec_row_match; assumption.
   - destruct (Hinv mu Hmu c0 Hin) as [g0 [t0 [A [B C]]]]. exists g0, t0. split; [exact A|]. split; [exact B|].
